@@ -55,6 +55,8 @@ type Plan struct {
 	ConflictAttack bool `json:"conflict_attack,omitempty"`
 	// C06: a header batch whose first header (known index, other content) names the signer of the second one
 	ForgedHeaders bool `json:"forged_headers,omitempty"`
+	// C06: the committee blocks an account, then a block carrying a transaction signed by it is delivered
+	BlockedAttack bool `json:"blocked_attack,omitempty"`
 	// TailSeed seeds the decision stream that answers once the explicit tape is used up (0: every further decision is
 	// the default one - no optional fault, no optional check)
 	TailSeed uint64 `json:"plan_tail_seed,omitempty"`
